@@ -142,7 +142,7 @@ func runHist(c *hx.Ctx, w *world, h *Hist, emit bool) {
 	}
 	var o *observed
 	if panicked, msg := hx.Recover(func() { o, err = r.execute() }); panicked {
-		c.Fail("panic:pool", "the receive path or the pool panicked", h, msg, nil)
+		c.Fail("panic:unguarded", "a panic escaped outside the guarded calls into the implementation", h, msg, nil)
 		return
 	}
 	if ip, isPanic := err.(*implPanic); isPanic {
@@ -313,6 +313,10 @@ func Run(c *hx.Ctx) {
 	for _, h := range witnesses() {
 		hh := h
 		runHist(c, w, &hh, true)
+	}
+	for _, h := range strippedProposalProbes() {
+		hh := h
+		runHist(c, w, &hh, false)
 	}
 	for _, h := range unsignedProbes() {
 		hh := h
